@@ -1137,6 +1137,12 @@ func (vc *funcVC) ensureKey(k string) bool {
 	if _, ok := c.heapSorts[k]; ok {
 		return true
 	}
+	if strings.HasPrefix(k, "G_") {
+		if gt, ok := vc.w.db.Ghosts[k[2:]]; ok {
+			c.heapSorts[k] = (&trans{c: c}).resolveType(gt).sort
+			return true
+		}
+	}
 	if t, ok := vc.ma.keyTypes[k]; ok {
 		if _, isMap := t.Underlying().(*types.Map); isMap && !strings.HasPrefix(k, "H_") {
 			c.mapKeys(t)
